@@ -76,6 +76,7 @@ type cval struct {
 	i    *big.Int
 	dep  bool   // depends on the argument
 	pure bool   // obtained from the argument by conversions only
+	mono bool   // a monotone step function of the argument on every cell that does not straddle zero (the binary exponent of math.Frexp)
 	bad  string // "wrapped" | "poison"
 	// interface / reflect values
 	dyn   types.Type
@@ -333,7 +334,7 @@ func (it *c10Interp) exec(f *ssa.Function, args []*cval, depth int) *cval {
 						return nil
 					}
 					for _, s := range []*cval{l, r} {
-						if s.dep && !s.pure {
+						if s.dep && !s.pure && !s.mono {
 							it.undec = "comparison of a non-conversion expression of the argument at " + it.c.pos(x.Pos())
 							return nil
 						}
@@ -648,6 +649,55 @@ func (it *c10Interp) call(x *ssa.Call, get func(ssa.Value) *cval, depth int) *cv
 		cp := *recv.inner
 		cp.t = x.Type()
 		return &cp
+	}
+	// a few functions of the standard library whose value is, on a cell of same-signed arguments, a monotone function of the
+	// argument (so that equal traces at both ends of a cell still mean equal traces inside it), or a constant
+	switch n {
+	case "math.Frexp":
+		v := get(x.Call.Args[0])
+		if v == nil {
+			return nil
+		}
+		if !v.isF {
+			it.undec = "math.Frexp of a non-float at " + it.c.pos(x.Pos())
+			return nil
+		}
+		frac, exp := math.Frexp(v.f)
+		it.trace = append(it.trace, fmt.Sprintf("%s:Frexp.exp=%d", it.c.pos(x.Pos()), exp))
+		return &cval{t: x.Type(), tuple: []*cval{
+			{t: types.Typ[types.Float64], isF: true, f: frac, dep: v.dep},
+			{t: types.Typ[types.Int], i: big.NewInt(int64(exp)), dep: v.dep, mono: v.dep && v.pure && v.bad == ""},
+		}}
+	case "math.IsInf", "math.IsNaN":
+		v := get(x.Call.Args[0])
+		if v == nil {
+			return nil
+		}
+		if !v.isF || (v.dep && (!v.pure || v.bad != "")) {
+			it.undec = n + " of something other than a conversion of the argument at " + it.c.pos(x.Pos())
+			return nil
+		}
+		r := math.IsNaN(v.f)
+		if n == "math.IsInf" {
+			sign := get(x.Call.Args[1])
+			if sign == nil || sign.i == nil || sign.dep {
+				it.undec = "math.IsInf with a sign that is not a constant at " + it.c.pos(x.Pos())
+				return nil
+			}
+			r = math.IsInf(v.f, int(sign.i.Int64()))
+		}
+		it.trace = append(it.trace, fmt.Sprintf("%s:%s=%v", it.c.pos(x.Pos()), n, r))
+		return &cval{t: x.Type(), isB: true, b: r, dep: v.dep}
+	case "math/bits.Len64", "math/bits.Len", "math/bits.Len32":
+		v := get(x.Call.Args[0])
+		if v == nil {
+			return nil
+		}
+		if v.i == nil || v.dep || v.i.Sign() < 0 {
+			it.undec = n + " of something other than a non-negative constant at " + it.c.pos(x.Pos())
+			return nil
+		}
+		return &cval{t: x.Type(), i: big.NewInt(int64(v.i.BitLen()))}
 	}
 	g := staticCallee(&x.Call)
 	gp := ""
